@@ -82,6 +82,25 @@ pub mod common {
             }
             fn add_pure_comment(&self, _pos: BytePos) { self.pure.set(self.pure.get() + 1); }
         }
+        /// Harness-side comment store backed by GLOBALS (CBMC keeps globals concrete; data behind `Option<C>` is not):
+        /// up to two leading comments at one position.
+        pub static mut G_POS: u32 = 0;
+        pub static mut G_N: usize = 0;
+        pub static mut G_TEXT0: Atom = Atom::empty();
+        pub static mut G_TEXT1: Atom = Atom::empty();
+        pub static mut G_PURE: u32 = 0;
+        pub struct GlobalComments;
+        impl Comments for GlobalComments {
+            fn with_leading<F, Ret>(&self, pos: BytePos, f: F) -> Ret where F: FnOnce(&[Comment]) -> Ret {
+                unsafe {
+                    if pos.0 == G_POS && G_N > 0 {
+                        let arr = [Comment { kind: CommentKind::Block, span: Span { lo: pos, hi: pos }, text: G_TEXT0 }, Comment { kind: CommentKind::Block, span: Span { lo: pos, hi: pos }, text: G_TEXT1 }];
+                        if G_N == 1 { f(&arr[..1]) } else { f(&arr[..2]) }
+                    } else { f(&[]) }
+                }
+            }
+            fn add_pure_comment(&self, _pos: BytePos) { unsafe { G_PURE += 1; } }
+        }
         /// `Option<C>`-free "no comments" store
         pub struct NoopComments;
         impl Comments for NoopComments {
@@ -125,7 +144,8 @@ pub mod ecma {
             pub fn from_raw(len: u8, buf: [u8; ATOM_CAP]) -> Self { Atom { len, buf } }
             pub fn as_str(&self) -> &str { unsafe { std::str::from_utf8_unchecked(&self.buf[..self.len as usize]) } }
         }
-        impl Default for Atom { fn default() -> Self { Atom { len: 0, buf: [0u8; ATOM_CAP] } } }
+        impl Atom { pub const fn empty() -> Self { Atom { len: 0, buf: [0u8; ATOM_CAP] } } }
+        impl Default for Atom { fn default() -> Self { Atom::empty() } }
         impl Deref for Atom { type Target = str; fn deref(&self) -> &str { self.as_str() } }
         impl AsRef<str> for Atom { fn as_ref(&self) -> &str { self.as_str() } }
         impl From<&str> for Atom { fn from(s: &str) -> Self { Atom::new_inline(s) } }
